@@ -1,91 +1,1380 @@
-// temporary probe (replaced by the real harness)
-use grafeo_engine::GrafeoDB;
-use grafeo_common::types::{Value, NodeId, EdgeId};
+//! C01 / C02 — histories of 2..4 sessions driven single-threaded through the real
+//! `GrafeoDB::session()` API (direct calls and GQL / SPARQL statement templates).
+//!
+//! One case = one history.  Every step's output is canonicalised (sorted lists) and printed as a Coq
+//! term of type `out` (coq/Mvcc/Model.v); the case's `coq` field is `chk_hist OPS OUTS`
+//! (model == implementation on the whole history).  The check derives the oracle terms
+//! (`c01_fails OPS OUTS`, `c02_fails OPS OUTS DUMPS`) from the same two lists; `msg` carries the dump
+//! ranges of the history (`dumps=[(start,len,base);...]`).
+//!
+//!   --prop c01|c02     which generator mix to use (default c01)
+//!   --show             print every history with the implementation's outputs to stderr
 
-fn show(tag: &str, r: grafeo_common::utils::error::Result<grafeo_engine::database::QueryResult>) {
-    match r {
-        Ok(q) => {
-            let rows: Vec<String> = q.rows.iter().map(|r| format!("{:?}", r)).collect();
-            println!("{:60} OK rows={}", tag, rows.join(" | "));
+use gv_harness::{catch, coq, parse_args, quiet_panics, Case, Oracle, Out, Rng};
+use grafeo_common::types::{EdgeId, NodeId, PropertyKey, TxId, Value};
+use grafeo_core::graph::rdf::{Term, Triple, TriplePattern};
+use grafeo_engine::{GrafeoDB, Session};
+
+// ------------------------------------------------------------------------------------------ ops
+
+type Val = Option<i64>;
+
+#[derive(Clone, Copy, Debug, PartialEq)]
+enum Sel {
+    Label(i64),
+    Any,
+}
+#[derive(Clone, Copy, Debug, PartialEq)]
+enum Dir {
+    Out,
+    In,
+    Both,
+}
+type Pat = (Option<i64>, Option<i64>, Option<i64>);
+type Tr = (i64, i64, i64);
+
+#[derive(Clone, Debug, PartialEq)]
+enum Kind {
+    LabelScan(i64),
+    AllScan,
+    CountAll,
+    CountLabel(i64),
+    ProjProp(i64, i64),
+    Expand(Sel, Dir, Option<i64>),
+    GetNode(i64),
+    GetEdge(i64),
+    GetProp(i64, i64),
+    Neigh(i64, Dir),
+    Degree(i64),
+    TripleQ(Pat),
+    TripleApi(Pat),
+    DbCounts,
+    StoreLabel(i64),
+    StoreProp(i64, i64),
+}
+
+#[derive(Clone, Debug, PartialEq)]
+enum Op {
+    Begin(i64),
+    Commit(i64),
+    Rollback(i64),
+    DropSession(i64),
+    /// last field: through GQL `INSERT` (true) or `Session::create_node_with_props` (false)
+    CreateNode(i64, Vec<i64>, Vec<(i64, Val)>, bool),
+    DeleteNode(i64, Sel, i64, bool),
+    CreateEdge(i64, i64, i64, i64),
+    CreateEdgeQ(i64, Sel, Sel, i64, i64, i64),
+    DeleteEdge(i64),
+    SetProp(i64, Sel, i64, i64, Val),
+    RemoveProp(i64, Sel, i64, i64),
+    AddLabel(i64, Sel, i64, i64),
+    RemoveLabel(i64, Sel, i64, i64),
+    InsertTriple(i64, Tr),
+    DeleteTriple(i64, Tr),
+    DbDeleteNode(i64),
+    DbSetProp(i64, i64, Val),
+    DbRemoveProp(i64, i64),
+    DbAddLabel(i64, i64),
+    DbRemoveLabel(i64, i64),
+    Read(i64, Kind),
+}
+
+fn z(v: i64) -> String {
+    coq::z(v)
+}
+fn cval(v: &Val) -> String {
+    match v {
+        Some(x) => format!("(Some {})", z(*x)),
+        None => "None".into(),
+    }
+}
+fn copt(v: &Option<i64>) -> String {
+    cval(v)
+}
+fn csel(s: &Sel) -> String {
+    match s {
+        Sel::Label(l) => format!("(SelLabel {})", z(*l)),
+        Sel::Any => "SelAny".into(),
+    }
+}
+fn cdir(d: &Dir) -> &'static str {
+    match d {
+        Dir::Out => "Out",
+        Dir::In => "In",
+        Dir::Both => "Both",
+    }
+}
+fn cpat(p: &Pat) -> String {
+    format!("({}, {}, {})", copt(&p.0), copt(&p.1), copt(&p.2))
+}
+fn ctr(t: &Tr) -> String {
+    format!("({}, {}, {})", z(t.0), z(t.1), z(t.2))
+}
+fn ckvs(ps: &[(i64, Val)]) -> String {
+    coq::list(ps.iter().map(|(k, v)| format!("({}, {})", z(*k), cval(v))))
+}
+fn czs(xs: &[i64]) -> String {
+    coq::list(xs.iter().map(|x| z(*x)))
+}
+
+impl Kind {
+    fn coq(&self) -> String {
+        match self {
+            Kind::LabelScan(l) => format!("(LabelScan {})", z(*l)),
+            Kind::AllScan => "AllScan".into(),
+            Kind::CountAll => "CountAll".into(),
+            Kind::CountLabel(l) => format!("(CountLabel {})", z(*l)),
+            Kind::ProjProp(l, k) => format!("(ProjProp {} {})", z(*l), z(*k)),
+            Kind::Expand(m, d, t) => format!("(Expand {} {} {})", csel(m), cdir(d), copt(t)),
+            Kind::GetNode(n) => format!("(GetNode {})", z(*n)),
+            Kind::GetEdge(n) => format!("(GetEdge {})", z(*n)),
+            Kind::GetProp(n, k) => format!("(GetProp {} {})", z(*n), z(*k)),
+            Kind::Neigh(n, d) => format!("(Neigh {} {})", z(*n), cdir(d)),
+            Kind::Degree(n) => format!("(Degree {})", z(*n)),
+            Kind::TripleQ(p) => format!("(TripleQ {})", cpat(p)),
+            Kind::TripleApi(p) => format!("(TripleApi {})", cpat(p)),
+            Kind::DbCounts => "DbCounts".into(),
+            Kind::StoreLabel(l) => format!("(StoreLabel {})", z(*l)),
+            Kind::StoreProp(n, k) => format!("(StoreProp {} {})", z(*n), z(*k)),
         }
-        Err(e) => println!("{:60} ERR {}", tag, e),
     }
 }
 
-fn main() {
-    let db = GrafeoDB::new_in_memory();
-    let mut a = db.session();
-    let mut b = db.session();
-    println!("=== probe a: dirty read");
-    a.begin_tx().unwrap();
-    show("A: INSERT (:L {k: 1})", a.execute("INSERT (:L {k: 1})"));
-    show("B: MATCH (n:L) RETURN n", b.execute("MATCH (n:L) RETURN n"));
-    show("B: MATCH (n) RETURN n", b.execute("MATCH (n) RETURN n"));
-    println!("B: get_node(0) = {:?}", b.get_node(NodeId::new(0)).map(|n| (n.labels.clone(), n.properties.clone())));
-    a.rollback().unwrap();
-    show("B after rollback: MATCH (n:L) RETURN n", b.execute("MATCH (n:L) RETURN n"));
-    println!("B: get_node(0) = {:?}", b.get_node(NodeId::new(0)).map(|n| (n.labels.clone(), n.properties.clone())));
-    println!("store.nodes_by_label(L) = {:?}", db.store().nodes_by_label("L"));
-    println!("=== probe b: store epoch");
-    a.begin_tx().unwrap();
-    let n1 = a.create_node_with_props(&["L"], [("k", Value::Int64(5))]);
-    a.commit().unwrap();
-    println!("n1 = {:?} (committed at epoch 1, stamped 0)", n1);
-    show("B: INSERT (:L {k: 2})  (auto, stamped epoch 1)", b.execute("INSERT (:L {k: 2})"));
-    show("B: MATCH (n:L) RETURN n, n.k", b.execute("MATCH (n:L) RETURN n, n.k"));
-    show("B: MATCH (n) RETURN n", b.execute("MATCH (n) RETURN n"));
-    show("B: MATCH (n) RETURN count(n)", b.execute("MATCH (n) RETURN count(n)"));
-    show("B: MATCH (n:L) RETURN count(n)", b.execute("MATCH (n:L) RETURN count(n)"));
-    println!("db.node_count() = {}", db.node_count());
-    println!("B: get_node(2) = {:?}", b.get_node(NodeId::new(2)).map(|n| (n.labels.clone(), n.properties.clone())));
-    println!("B: get_node_property(2,k) = {:?}", b.get_node_property(NodeId::new(2), "k"));
-    let e = b.create_edge(NodeId::new(1), NodeId::new(2), "T");
-    println!("edge {:?}", e);
-    show("B: MATCH (a:L)-[r:T]->(b) RETURN a, r, b", b.execute("MATCH (a:L)-[r:T]->(b) RETURN a, r, b"));
-    show("B: MATCH (a:L)-[r]->(b) RETURN a, r, b", b.execute("MATCH (a:L)-[r]->(b) RETURN a, r, b"));
-    show("B: MATCH (a:L)-[r]->(b) RETURN a, type(r), b", b.execute("MATCH (a:L)-[r]->(b) RETURN a, type(r), b"));
-    println!("B: neighbors_out(1) = {:?} in(2) = {:?} degree(1) = {:?}", b.get_neighbors_outgoing(NodeId::new(1)), b.get_neighbors_incoming(NodeId::new(2)), b.get_degree(NodeId::new(1)));
-    println!("B: get_edge = {:?}", b.get_edge(e).map(|e| (e.src, e.dst, e.edge_type.clone())));
-    println!("db.edge_count() = {}", db.edge_count());
-    show("B: MATCH (n) WHERE id(n) = 2 SET n.k = 9", b.execute("MATCH (n) WHERE id(n) = 2 SET n.k = 9"));
-    show("B: MATCH (n:L) WHERE id(n) = 2 SET n:Q", b.execute("MATCH (n:L) WHERE id(n) = 2 SET n:Q"));
-    println!("B: get_node(2) = {:?}", b.get_node(NodeId::new(2)).map(|n| (n.labels.clone(), n.properties.clone())));
-    show("B: MATCH (n:L) WHERE id(n) = 2 DETACH DELETE n", b.execute("MATCH (n:L) WHERE id(n) = 2 DETACH DELETE n"));
-    println!("B: get_node(2) = {:?} get_edge={:?}", b.get_node(NodeId::new(2)).map(|n| (n.labels.clone(), n.properties.clone())), b.get_edge(e).is_some());
-    println!("B: neighbors_out(1) = {:?}", b.get_neighbors_outgoing(NodeId::new(1)));
-    println!("=== probe c: rollback of SET / DELETE");
-    let db = GrafeoDB::new_in_memory();
-    let mut a = db.session();
-    let b = db.session();
-    let n0 = db.create_node(&["L"]);
-    db.set_node_property(n0, "v", Value::Int64(1));
-    a.begin_tx().unwrap();
-    show("A: SET n.v = 2", a.execute("MATCH (n:L) WHERE id(n) = 0 SET n.v = 2"));
-    a.rollback().unwrap();
-    println!("B: get_node(0) = {:?}", b.get_node(n0).map(|n| (n.labels.clone(), n.properties.clone())));
-    a.begin_tx().unwrap();
-    show("A: REMOVE n.v", a.execute("MATCH (n:L) WHERE id(n) = 0 REMOVE n.v"));
-    println!("B: get_node(0) = {:?}", b.get_node(n0).map(|n| (n.labels.clone(), n.properties.clone())));
-    a.rollback().unwrap();
-    a.begin_tx().unwrap();
-    show("A: DELETE n", a.execute("MATCH (n:L) WHERE id(n) = 0 DELETE n"));
-    println!("A(in tx): get_node(0) = {:?}", a.get_node(n0).is_some());
-    println!("B: get_node(0) = {:?}", b.get_node(n0).is_some());
-    a.rollback().unwrap();
-    println!("B after rollback: get_node(0) = {:?}", b.get_node(n0).is_some());
-    show("B: MATCH (n:L) RETURN n", b.execute("MATCH (n:L) RETURN n"));
-    println!("=== drop");
-    {
-        let mut c = db.session();
-        c.begin_tx().unwrap();
-        show("C: INSERT (:D)", c.execute("INSERT (:D)"));
-        c.execute_sparql("INSERT DATA { <http://e/s> <http://e/p> <http://e/o> }").unwrap();
+impl Op {
+    fn coq(&self) -> String {
+        match self {
+            Op::Begin(s) => format!("Begin {}", z(*s)),
+            Op::Commit(s) => format!("Commit {}", z(*s)),
+            Op::Rollback(s) => format!("Rollback {}", z(*s)),
+            Op::DropSession(s) => format!("DropSession {}", z(*s)),
+            Op::CreateNode(s, ls, ps, _) => format!("CreateNode {} {} {}", z(*s), czs(ls), ckvs(ps)),
+            Op::DeleteNode(s, m, id, d) => format!("DeleteNode {} {} {} {}", z(*s), csel(m), z(*id), coq::b(*d)),
+            Op::CreateEdge(s, a, b, t) => format!("CreateEdge {} {} {} {}", z(*s), z(*a), z(*b), z(*t)),
+            Op::CreateEdgeQ(s, ma, mb, a, b, t) => {
+                format!("CreateEdgeQ {} {} {} {} {} {}", z(*s), csel(ma), csel(mb), z(*a), z(*b), z(*t))
+            }
+            Op::DeleteEdge(e) => format!("DeleteEdge {}", z(*e)),
+            Op::SetProp(s, m, id, k, v) => format!("SetProp {} {} {} {} {}", z(*s), csel(m), z(*id), z(*k), cval(v)),
+            Op::RemoveProp(s, m, id, k) => format!("RemoveProp {} {} {} {}", z(*s), csel(m), z(*id), z(*k)),
+            Op::AddLabel(s, m, id, l) => format!("AddLabel {} {} {} {}", z(*s), csel(m), z(*id), z(*l)),
+            Op::RemoveLabel(s, m, id, l) => format!("RemoveLabel {} {} {} {}", z(*s), csel(m), z(*id), z(*l)),
+            Op::InsertTriple(s, t) => format!("InsertTriple {} {}", z(*s), ctr(t)),
+            Op::DeleteTriple(s, t) => format!("DeleteTriple {} {}", z(*s), ctr(t)),
+            Op::DbDeleteNode(n) => format!("DbDeleteNode {}", z(*n)),
+            Op::DbSetProp(n, k, v) => format!("DbSetProp {} {} {}", z(*n), z(*k), cval(v)),
+            Op::DbRemoveProp(n, k) => format!("DbRemoveProp {} {}", z(*n), z(*k)),
+            Op::DbAddLabel(n, l) => format!("DbAddLabel {} {}", z(*n), z(*l)),
+            Op::DbRemoveLabel(n, l) => format!("DbRemoveLabel {} {}", z(*n), z(*l)),
+            Op::Read(s, k) => format!("Read {} {}", z(*s), k.coq()),
+        }
     }
-    show("B: MATCH (n:D) RETURN n", b.execute("MATCH (n:D) RETURN n"));
-    show("B: sparql", b.execute_sparql("SELECT ?s ?p ?o WHERE { ?s ?p ?o }"));
-    // null props
-    let s = db.session();
-    let x = s.create_node_with_props(&["P"], [("a", Value::Null)]);
-    println!("null prop node {:?}", s.get_node(x).map(|n| (n.labels.clone(), n.properties.clone())));
-    show("labels order", s.execute("INSERT (:X:A:M {z: 1, a: 2})"));
+    /// session that performs the op (None for database-level calls)
+    fn session(&self) -> Option<i64> {
+        match self {
+            Op::Begin(s) | Op::Commit(s) | Op::Rollback(s) | Op::DropSession(s) => Some(*s),
+            Op::CreateNode(s, ..) | Op::DeleteNode(s, ..) | Op::CreateEdge(s, ..) | Op::CreateEdgeQ(s, ..) => Some(*s),
+            Op::SetProp(s, ..) | Op::RemoveProp(s, ..) | Op::AddLabel(s, ..) | Op::RemoveLabel(s, ..) => Some(*s),
+            Op::InsertTriple(s, _) | Op::DeleteTriple(s, _) | Op::Read(s, _) => Some(*s),
+            _ => None,
+        }
+    }
+    fn is_mutation(&self) -> bool {
+        !matches!(self, Op::Begin(_) | Op::Commit(_) | Op::Rollback(_) | Op::DropSession(_) | Op::Read(..))
+    }
+    /// coarse kind of a mutation (for the C02 non-triviality rule)
+    fn mkind(&self) -> &'static str {
+        match self {
+            Op::CreateNode(..) => "create_node",
+            Op::DeleteNode(..) | Op::DbDeleteNode(_) => "delete_node",
+            Op::CreateEdge(..) | Op::CreateEdgeQ(..) => "create_edge",
+            Op::DeleteEdge(_) => "delete_edge",
+            Op::SetProp(..) | Op::DbSetProp(..) => "set_prop",
+            Op::RemoveProp(..) | Op::DbRemoveProp(..) => "remove_prop",
+            Op::AddLabel(..) | Op::DbAddLabel(..) => "add_label",
+            Op::RemoveLabel(..) | Op::DbRemoveLabel(..) => "remove_label",
+            Op::InsertTriple(..) => "insert_triple",
+            Op::DeleteTriple(..) => "delete_triple",
+            _ => "other",
+        }
+    }
+}
+
+// -------------------------------------------------------------------------------------- outputs
+
+#[derive(Clone, Debug, PartialEq)]
+enum O {
+    Unit,
+    Err,
+    Bool(bool),
+    Id(i64),
+    Ids(Vec<i64>),
+    Count(i64),
+    Vals(Vec<(i64, Val)>),
+    Rows(Vec<(i64, i64, i64)>),
+    Node(Option<(Vec<i64>, Vec<(i64, Val)>)>),
+    Edge(Option<(i64, i64, i64)>),
+    Val(Option<Val>),
+    Pairs(Vec<(i64, i64)>),
+    Deg(i64, i64),
+    Triples(Vec<Tr>),
+    Counts(i64, i64),
+    /// something the model has no constructor for (unexpected error / panic / malformed row)
+    Weird(String),
+}
+
+impl O {
+    fn coq(&self) -> String {
+        match self {
+            O::Unit => "OUnit".into(),
+            O::Err => "OErr".into(),
+            O::Bool(b) => format!("OBool {}", coq::b(*b)),
+            O::Id(x) => format!("OId {}", z(*x)),
+            O::Ids(l) => format!("OIds {}", czs(l)),
+            O::Count(x) => format!("OCount {}", z(*x)),
+            O::Vals(l) => format!("OVals {}", ckvs(l)),
+            O::Rows(l) => format!("ORows {}", coq::list(l.iter().map(ctr))),
+            O::Node(None) => "ONode None".into(),
+            O::Node(Some((ls, ps))) => format!("ONode (Some ({}, {}))", czs(ls), ckvs(ps)),
+            O::Edge(None) => "OEdge None".into(),
+            O::Edge(Some(t)) => format!("OEdge (Some {})", ctr(t)),
+            O::Val(None) => "OVal None".into(),
+            O::Val(Some(v)) => format!("OVal (Some {})", cval(v)),
+            O::Pairs(l) => format!("OPairs {}", coq::list(l.iter().map(|(a, b)| format!("({}, {})", z(*a), z(*b))))),
+            O::Deg(a, b) => format!("ODeg {} {}", z(*a), z(*b)),
+            O::Triples(l) => format!("OTriples {}", coq::list(l.iter().map(ctr))),
+            O::Counts(a, b) => format!("OCounts {} {}", z(*a), z(*b)),
+            // never equal to a model output of the same step: the correspondence fails there
+            O::Weird(_) => "OCounts (-1)%Z (-1)%Z".into(),
+        }
+    }
+}
+
+// ----------------------------------------------------------------------------- the implementation
+
+fn lname(l: i64) -> String {
+    format!("L{}", l)
+}
+fn kname(k: i64) -> String {
+    format!("k{}", k)
+}
+fn tname(t: i64) -> String {
+    format!("T{}", t)
+}
+fn iri(kind: char, n: i64) -> String {
+    format!("http://e/{}{}", kind, n)
+}
+fn parse_tail(s: &str, prefix: &str) -> Option<i64> {
+    s.strip_prefix(prefix)?.parse().ok()
+}
+fn val_of(v: &Value) -> Result<Val, String> {
+    match v {
+        Value::Int64(x) => Ok(Some(*x)),
+        Value::Null => Ok(None),
+        other => Err(format!("unexpected value {:?}", other)),
+    }
+}
+fn to_value(v: &Val) -> Value {
+    match v {
+        Some(x) => Value::Int64(*x),
+        None => Value::Null,
+    }
+}
+fn vlit(v: &Val) -> String {
+    match v {
+        Some(x) => format!("{}", x),
+        None => "NULL".into(),
+    }
+}
+fn sel_pat(var: &str, m: &Sel) -> String {
+    match m {
+        Sel::Label(l) => format!("({}:{})", var, lname(*l)),
+        Sel::Any => format!("({})", var),
+    }
+}
+
+struct Impl {
+    db: GrafeoDB,
+    sessions: Vec<Session>,
+    /// transaction id of each session's open transaction (ids are handed out 2, 3, ...)
+    tx: Vec<Option<u64>>,
+    next_tx: u64,
+}
+
+const OBSERVER: i64 = 9;
+
+impl Impl {
+    fn new(nsess: usize) -> Self {
+        let db = GrafeoDB::new_in_memory();
+        let sessions = (0..=nsess).map(|_| db.session()).collect();
+        Impl { db, sessions, tx: vec![None; nsess + 1], next_tx: 2 }
+    }
+    /// index into `sessions`: the observer is the last one
+    fn si(&self, s: i64) -> usize {
+        if s == OBSERVER { self.sessions.len() - 1 } else { s as usize }
+    }
+
+    fn gql_int_rows(&self, s: i64, q: &str, ncol: usize) -> Result<Vec<Vec<Value>>, String> {
+        let r = self.sessions[self.si(s)].execute(q).map_err(|e| format!("{}: {}", q, e))?;
+        for row in &r.rows {
+            if row.len() != ncol {
+                return Err(format!("{}: row of width {}", q, row.len()));
+            }
+        }
+        Ok(r.rows)
+    }
+    fn int(v: &Value) -> Result<i64, String> {
+        match v {
+            Value::Int64(x) => Ok(*x),
+            o => Err(format!("expected an integer, got {:?}", o)),
+        }
+    }
+
+    fn read(&self, s: i64, k: &Kind) -> Result<O, String> {
+        let sess = &self.sessions[self.si(s)];
+        Ok(match k {
+            Kind::LabelScan(l) => {
+                let rows = self.gql_int_rows(s, &format!("MATCH (n:{}) RETURN n", lname(*l)), 1)?;
+                let mut ids = rows.iter().map(|r| Self::int(&r[0])).collect::<Result<Vec<_>, _>>()?;
+                ids.sort();
+                O::Ids(ids)
+            }
+            Kind::AllScan => {
+                let rows = self.gql_int_rows(s, "MATCH (n) RETURN n", 1)?;
+                let mut ids = rows.iter().map(|r| Self::int(&r[0])).collect::<Result<Vec<_>, _>>()?;
+                ids.sort();
+                O::Ids(ids)
+            }
+            Kind::CountAll => {
+                let rows = self.gql_int_rows(s, "MATCH (n) RETURN count(n)", 1)?;
+                if rows.len() != 1 {
+                    return Err(format!("count returned {} rows", rows.len()));
+                }
+                O::Count(Self::int(&rows[0][0])?)
+            }
+            Kind::CountLabel(l) => {
+                let rows = self.gql_int_rows(s, &format!("MATCH (n:{}) RETURN count(n)", lname(*l)), 1)?;
+                if rows.len() != 1 {
+                    return Err(format!("count returned {} rows", rows.len()));
+                }
+                O::Count(Self::int(&rows[0][0])?)
+            }
+            Kind::ProjProp(l, key) => {
+                let rows = self.gql_int_rows(s, &format!("MATCH (n:{}) RETURN n, n.{}", lname(*l), kname(*key)), 2)?;
+                let mut v = Vec::new();
+                for r in &rows {
+                    v.push((Self::int(&r[0])?, val_of(&r[1])?));
+                }
+                v.sort();
+                O::Vals(v)
+            }
+            Kind::Expand(m, d, ty) => {
+                let rel = match ty {
+                    Some(t) => format!("[r:{}]", tname(*t)),
+                    None => "[r]".to_string(),
+                };
+                let pat = match d {
+                    Dir::Out => format!("{}-{}->(b)", sel_pat("a", m), rel),
+                    Dir::In => format!("{}<-{}-(b)", sel_pat("a", m), rel),
+                    Dir::Both => format!("{}-{}-(b)", sel_pat("a", m), rel),
+                };
+                let rows = self.gql_int_rows(s, &format!("MATCH {} RETURN a, r, b", pat), 3)?;
+                let mut v = Vec::new();
+                for r in &rows {
+                    v.push((Self::int(&r[0])?, Self::int(&r[1])?, Self::int(&r[2])?));
+                }
+                v.sort();
+                O::Rows(v)
+            }
+            Kind::GetNode(n) => match sess.get_node(NodeId::new(*n as u64)) {
+                None => O::Node(None),
+                Some(node) => {
+                    let mut ls = Vec::new();
+                    for l in node.labels.iter() {
+                        ls.push(parse_tail(l.as_str(), "L").ok_or_else(|| format!("label {:?}", l))?);
+                    }
+                    ls.sort();
+                    let mut ps = Vec::new();
+                    for (k, v) in node.properties.iter() {
+                        ps.push((parse_tail(k.as_str(), "k").ok_or_else(|| format!("key {:?}", k))?, val_of(v)?));
+                    }
+                    ps.sort();
+                    O::Node(Some((ls, ps)))
+                }
+            },
+            Kind::GetEdge(e) => match sess.get_edge(EdgeId::new(*e as u64)) {
+                None => O::Edge(None),
+                Some(edge) => O::Edge(Some((
+                    edge.src.0 as i64,
+                    edge.dst.0 as i64,
+                    parse_tail(edge.edge_type.as_str(), "T").ok_or("edge type")?,
+                ))),
+            },
+            Kind::GetProp(n, key) => match sess.get_node_property(NodeId::new(*n as u64), &kname(*key)) {
+                None => O::Val(None),
+                Some(v) => O::Val(Some(val_of(&v)?)),
+            },
+            Kind::Neigh(n, d) => {
+                let v = match d {
+                    Dir::Out => sess.get_neighbors_outgoing(NodeId::new(*n as u64)),
+                    Dir::In => sess.get_neighbors_incoming(NodeId::new(*n as u64)),
+                    Dir::Both => return Err("no session call for both directions".into()),
+                };
+                let mut v: Vec<(i64, i64)> = v.iter().map(|(a, b)| (a.0 as i64, b.0 as i64)).collect();
+                v.sort();
+                O::Pairs(v)
+            }
+            Kind::Degree(n) => {
+                let (a, b) = sess.get_degree(NodeId::new(*n as u64));
+                O::Deg(a as i64, b as i64)
+            }
+            Kind::TripleQ(p) => {
+                let mut vars = Vec::new();
+                let term = |o: &Option<i64>, c: char, vars: &mut Vec<char>| match o {
+                    Some(x) => format!("<{}>", iri(c, *x)),
+                    None => {
+                        vars.push(c);
+                        format!("?{}", c)
+                    }
+                };
+                let ts = term(&p.0, 's', &mut vars);
+                let tp = term(&p.1, 'p', &mut vars);
+                let to = term(&p.2, 'o', &mut vars);
+                if vars.is_empty() {
+                    return Err("fully bound pattern".into());
+                }
+                let sel: Vec<String> = vars.iter().map(|c| format!("?{}", c)).collect();
+                let q = format!("SELECT {} WHERE {{ {} {} {} }}", sel.join(" "), ts, tp, to);
+                let r = sess.execute_sparql(&q).map_err(|e| format!("{}: {}", q, e))?;
+                let mut out = Vec::new();
+                for row in &r.rows {
+                    if row.len() != vars.len() {
+                        return Err(format!("{}: row width {}", q, row.len()));
+                    }
+                    let mut t = (p.0, p.1, p.2);
+                    for (c, v) in vars.iter().zip(row.iter()) {
+                        let sv = match v {
+                            Value::String(x) => x.to_string(),
+                            o => return Err(format!("sparql value {:?}", o)),
+                        };
+                        let n = parse_tail(&sv, &format!("http://e/{}", c)).ok_or_else(|| format!("iri {}", sv))?;
+                        match c {
+                            's' => t.0 = Some(n),
+                            'p' => t.1 = Some(n),
+                            _ => t.2 = Some(n),
+                        }
+                    }
+                    out.push((t.0.unwrap(), t.1.unwrap(), t.2.unwrap()));
+                }
+                out.sort();
+                O::Triples(out)
+            }
+            Kind::TripleApi(p) => {
+                let pat = TriplePattern {
+                    subject: p.0.map(|x| Term::iri(iri('s', x))),
+                    predicate: p.1.map(|x| Term::iri(iri('p', x))),
+                    object: p.2.map(|x| Term::iri(iri('o', x))),
+                };
+                let tx = self.tx[self.si(s)].map(TxId::new);
+                let res = self.db.rdf_store().find_with_pending(&pat, tx);
+                let mut out = Vec::new();
+                for t in res {
+                    let g = |t: &Term, c: char| -> Result<i64, String> {
+                        let i = t.as_iri().ok_or("not an iri")?;
+                        parse_tail(i.as_str(), &format!("http://e/{}", c)).ok_or_else(|| format!("iri {}", i.as_str()))
+                    };
+                    out.push((g(t.subject(), 's')?, g(t.predicate(), 'p')?, g(t.object(), 'o')?));
+                }
+                out.sort();
+                O::Triples(out)
+            }
+            Kind::DbCounts => O::Counts(self.db.node_count() as i64, self.db.edge_count() as i64),
+            Kind::StoreLabel(l) => {
+                let mut v: Vec<i64> = self.db.store().nodes_by_label(&lname(*l)).iter().map(|n| n.0 as i64).collect();
+                v.sort();
+                O::Ids(v)
+            }
+            Kind::StoreProp(n, key) => {
+                match self.db.store().get_node_property(NodeId::new(*n as u64), &PropertyKey::new(kname(*key))) {
+                    None => O::Val(None),
+                    Some(v) => O::Val(Some(val_of(&v)?)),
+                }
+            }
+        })
+    }
+
+    fn stmt(&self, s: i64, q: &str) -> Result<O, String> {
+        self.sessions[self.si(s)].execute(q).map(|_| O::Unit).map_err(|e| format!("{}: {}", q, e))
+    }
+    fn sparql(&self, s: i64, q: &str) -> Result<O, String> {
+        self.sessions[self.si(s)].execute_sparql(q).map(|_| O::Unit).map_err(|e| format!("{}: {}", q, e))
+    }
+
+    fn exec(&mut self, op: &Op) -> Result<O, String> {
+        use grafeo_common::utils::error::{Error, TransactionError};
+        let tx_result = |r: grafeo_common::utils::error::Result<()>| -> Result<O, String> {
+            match r {
+                Ok(()) => Ok(O::Unit),
+                Err(Error::Transaction(TransactionError::InvalidState(_))) => Ok(O::Err),
+                Err(e) => Err(format!("unexpected error {}", e)),
+            }
+        };
+        match op {
+            Op::Begin(s) => {
+                let i = self.si(*s);
+                let r = tx_result(self.sessions[i].begin_tx())?;
+                if r == O::Unit {
+                    self.tx[i] = Some(self.next_tx);
+                    self.next_tx += 1;
+                }
+                Ok(r)
+            }
+            Op::Commit(s) => {
+                let i = self.si(*s);
+                let r = tx_result(self.sessions[i].commit())?;
+                self.tx[i] = None;
+                Ok(r)
+            }
+            Op::Rollback(s) => {
+                let i = self.si(*s);
+                let r = tx_result(self.sessions[i].rollback())?;
+                self.tx[i] = None;
+                Ok(r)
+            }
+            Op::DropSession(s) => {
+                let i = self.si(*s);
+                let fresh = self.db.session();
+                let old = std::mem::replace(&mut self.sessions[i], fresh);
+                drop(old);
+                self.tx[i] = None;
+                Ok(O::Unit)
+            }
+            Op::CreateNode(s, ls, ps, gql) => {
+                if *gql {
+                    let labels: String = ls.iter().map(|l| format!(":{}", lname(*l))).collect();
+                    let props = if ps.is_empty() {
+                        String::new()
+                    } else {
+                        let v: Vec<String> = ps.iter().map(|(k, v)| format!("{}: {}", kname(*k), vlit(v))).collect();
+                        format!(" {{{}}}", v.join(", "))
+                    };
+                    let q = format!("INSERT ({}{})", labels, props);
+                    let r = self.sessions[self.si(*s)].execute(&q).map_err(|e| format!("{}: {}", q, e))?;
+                    if r.rows.len() != 1 || r.rows[0].len() != 1 {
+                        return Err(format!("{}: unexpected shape", q));
+                    }
+                    Ok(O::Id(Self::int(&r.rows[0][0])?))
+                } else {
+                    let names: Vec<String> = ls.iter().map(|l| lname(*l)).collect();
+                    let refs: Vec<&str> = names.iter().map(|x| x.as_str()).collect();
+                    let keys: Vec<String> = ps.iter().map(|(k, _)| kname(*k)).collect();
+                    let sess = &self.sessions[self.si(*s)];
+                    let id = if ps.is_empty() {
+                        sess.create_node(&refs)
+                    } else {
+                        sess.create_node_with_props(&refs, keys.iter().zip(ps.iter()).map(|(k, (_, v))| (k.as_str(), to_value(v))))
+                    };
+                    Ok(O::Id(id.0 as i64))
+                }
+            }
+            Op::DeleteNode(s, m, id, detach) => self.stmt(
+                *s,
+                &format!("MATCH {} WHERE id(n) = {} {}DELETE n", sel_pat("n", m), id, if *detach { "DETACH " } else { "" }),
+            ),
+            Op::CreateEdge(s, a, b, t) => {
+                let id = self.sessions[self.si(*s)].create_edge(NodeId::new(*a as u64), NodeId::new(*b as u64), &tname(*t));
+                Ok(O::Id(id.0 as i64))
+            }
+            Op::CreateEdgeQ(s, ma, mb, a, b, t) => {
+                let q = format!(
+                    "MATCH {}, {} WHERE id(a) = {} AND id(b) = {} CREATE (a)-[r:{}]->(b) RETURN id(r)",
+                    sel_pat("a", ma),
+                    sel_pat("b", mb),
+                    a,
+                    b,
+                    tname(*t)
+                );
+                let rows = self.gql_int_rows(*s, &q, 1)?;
+                let mut ids = rows.iter().map(|r| Self::int(&r[0])).collect::<Result<Vec<_>, _>>()?;
+                ids.sort();
+                Ok(O::Ids(ids))
+            }
+            Op::DeleteEdge(e) => Ok(O::Bool(self.db.delete_edge(EdgeId::new(*e as u64)))),
+            Op::SetProp(s, m, id, k, v) => {
+                self.stmt(*s, &format!("MATCH {} WHERE id(n) = {} SET n.{} = {}", sel_pat("n", m), id, kname(*k), vlit(v)))
+            }
+            Op::RemoveProp(s, m, id, k) => {
+                self.stmt(*s, &format!("MATCH {} WHERE id(n) = {} REMOVE n.{}", sel_pat("n", m), id, kname(*k)))
+            }
+            Op::AddLabel(s, m, id, l) => {
+                self.stmt(*s, &format!("MATCH {} WHERE id(n) = {} SET n:{}", sel_pat("n", m), id, lname(*l)))
+            }
+            Op::RemoveLabel(s, m, id, l) => {
+                self.stmt(*s, &format!("MATCH {} WHERE id(n) = {} REMOVE n:{}", sel_pat("n", m), id, lname(*l)))
+            }
+            Op::InsertTriple(s, t) => self.sparql(
+                *s,
+                &format!("INSERT DATA {{ <{}> <{}> <{}> }}", iri('s', t.0), iri('p', t.1), iri('o', t.2)),
+            ),
+            Op::DeleteTriple(s, t) => self.sparql(
+                *s,
+                &format!("DELETE DATA {{ <{}> <{}> <{}> }}", iri('s', t.0), iri('p', t.1), iri('o', t.2)),
+            ),
+            Op::DbDeleteNode(n) => Ok(O::Bool(self.db.delete_node(NodeId::new(*n as u64)))),
+            Op::DbSetProp(n, k, v) => {
+                self.db.set_node_property(NodeId::new(*n as u64), &kname(*k), to_value(v));
+                Ok(O::Unit)
+            }
+            Op::DbRemoveProp(n, k) => Ok(O::Bool(self.db.remove_node_property(NodeId::new(*n as u64), &kname(*k)))),
+            Op::DbAddLabel(n, l) => Ok(O::Bool(self.db.add_node_label(NodeId::new(*n as u64), &lname(*l)))),
+            Op::DbRemoveLabel(n, l) => Ok(O::Bool(self.db.remove_node_label(NodeId::new(*n as u64), &lname(*l)))),
+            Op::Read(s, k) => self.read(*s, k),
+        }
+    }
+}
+
+// ------------------------------------------------------------------------------------ histories
+
+/// universes
+const NLABELS: i64 = 3;
+const NKEYS: i64 = 2;
+const NTYPES: i64 = 2;
+const NVALS: i64 = 4;
+const MAXNODES: i64 = 6;
+const MAXEDGES: i64 = 6;
+
+/// the six triples of the universe: (s, p, o) with s, o in {0,1}, p in {0,1}, minus two
+const TRIPLES: [Tr; 6] = [(0, 0, 0), (0, 0, 1), (0, 1, 0), (1, 0, 0), (1, 1, 1), (1, 0, 1)];
+
+/// what the generator remembers while it builds a history (not a model: only id counters and
+/// which sessions have an open transaction, so that most operations refer to things that exist)
+struct Shadow {
+    nsess: i64,
+    in_tx: Vec<bool>,
+    nn: i64,
+    ne: i64,
+}
+
+struct Gen<'a> {
+    rng: &'a mut Rng,
+    sh: Shadow,
+    im: Impl,
+    ops: Vec<Op>,
+    outs: Vec<O>,
+    errs: Vec<String>,
+    /// (start, len, base_len): dump = ops[start..start+len]; the first base_len reads repeat the
+    /// read list of the previous dump of the history (0 for the first dump)
+    dumps: Vec<(usize, usize, usize)>,
+    last_dump_kinds: Vec<Kind>,
+}
+
+impl<'a> Gen<'a> {
+    fn new(rng: &'a mut Rng, nsess: i64) -> Self {
+        Gen {
+            rng,
+            sh: Shadow { nsess, in_tx: vec![false; nsess as usize], nn: 0, ne: 0 },
+            im: Impl::new(nsess as usize),
+            ops: vec![],
+            outs: vec![],
+            errs: vec![],
+            dumps: vec![],
+            last_dump_kinds: vec![],
+        }
+    }
+
+    /// runs one op against the implementation and records it
+    fn push(&mut self, op: Op) -> O {
+        let im = std::panic::AssertUnwindSafe(&mut self.im);
+        let opc = op.clone();
+        let r = catch(move || {
+            let mut im = im;
+            im.0.exec(&opc)
+        });
+        let o = match r {
+            Ok(Ok(o)) => o,
+            Ok(Err(e)) => {
+                self.errs.push(e.clone());
+                O::Weird(e)
+            }
+            Err(p) => {
+                self.errs.push(format!("panic: {}", p));
+                O::Weird(format!("panic: {}", p))
+            }
+        };
+        // shadow bookkeeping
+        match (&op, &o) {
+            (Op::Begin(s), O::Unit) if *s != OBSERVER => self.sh.in_tx[*s as usize] = true,
+            (Op::Commit(s), _) | (Op::Rollback(s), _) | (Op::DropSession(s), _) if *s != OBSERVER => {
+                self.sh.in_tx[*s as usize] = false
+            }
+            (Op::CreateNode(..), O::Id(x)) => self.sh.nn = self.sh.nn.max(x + 1),
+            (Op::CreateEdge(..), O::Id(x)) => self.sh.ne = self.sh.ne.max(x + 1),
+            (Op::CreateEdgeQ(..), O::Ids(l)) => {
+                for x in l {
+                    self.sh.ne = self.sh.ne.max(x + 1)
+                }
+            }
+            _ => {}
+        }
+        self.ops.push(op);
+        self.outs.push(o.clone());
+        o
+    }
+
+    fn sess(&mut self) -> i64 {
+        self.rng.below(self.sh.nsess as u64) as i64
+    }
+    fn label(&mut self) -> i64 {
+        self.rng.below(NLABELS as u64) as i64
+    }
+    fn key(&mut self) -> i64 {
+        self.rng.below(NKEYS as u64) as i64
+    }
+    fn ty(&mut self) -> i64 {
+        self.rng.below(NTYPES as u64) as i64
+    }
+    fn value(&mut self) -> Val {
+        if self.rng.chance(1, 8) { None } else { Some(self.rng.below(NVALS as u64) as i64) }
+    }
+    /// mostly an existing node id, sometimes one past the end
+    fn node(&mut self) -> i64 {
+        if self.sh.nn == 0 || self.rng.chance(1, 12) { self.sh.nn + self.rng.below(2) as i64 } else { self.rng.below(self.sh.nn as u64) as i64 }
+    }
+    fn edge(&mut self) -> i64 {
+        if self.sh.ne == 0 || self.rng.chance(1, 12) { self.sh.ne + self.rng.below(2) as i64 } else { self.rng.below(self.sh.ne as u64) as i64 }
+    }
+    fn sel(&mut self) -> Sel {
+        if self.rng.chance(3, 10) { Sel::Any } else { Sel::Label(self.label()) }
+    }
+    fn triple(&mut self) -> Tr {
+        *self.rng.pick(&TRIPLES)
+    }
+    fn pattern(&mut self) -> Pat {
+        match self.rng.below(6) {
+            0 | 1 => (None, None, None),
+            2 => (Some(self.rng.below(2) as i64), None, None),
+            3 => (None, Some(self.rng.below(2) as i64), None),
+            4 => (None, None, Some(self.rng.below(2) as i64)),
+            _ => (Some(self.rng.below(2) as i64), Some(self.rng.below(2) as i64), None),
+        }
+    }
+    fn labels(&mut self) -> Vec<i64> {
+        let mut v = vec![];
+        for l in 0..NLABELS {
+            if self.rng.chance(2, 5) {
+                v.push(l);
+            }
+        }
+        v
+    }
+    fn props(&mut self, allow_null: bool) -> Vec<(i64, Val)> {
+        let mut v = vec![];
+        for k in 0..NKEYS {
+            if self.rng.chance(2, 5) {
+                let mut x = self.value();
+                if !allow_null && x.is_none() {
+                    x = Some(0);
+                }
+                v.push((k, x));
+            }
+        }
+        v
+    }
+
+    fn read_kind(&mut self) -> Kind {
+        match self.rng.below(20) {
+            0 | 1 | 2 => Kind::LabelScan(self.label()),
+            3 | 4 => Kind::AllScan,
+            5 => Kind::CountAll,
+            6 => Kind::CountLabel(self.label()),
+            7 | 8 => Kind::ProjProp(self.label(), self.key()),
+            9 | 10 => {
+                let m = self.sel();
+                let d = *self.rng.pick(&[Dir::Out, Dir::Out, Dir::In, Dir::Both]);
+                let t = if self.rng.chance(1, 2) { Some(self.ty()) } else { None };
+                Kind::Expand(m, d, t)
+            }
+            11 | 12 | 13 => Kind::GetNode(self.node()),
+            14 => Kind::GetEdge(self.edge()),
+            15 => Kind::GetProp(self.node(), self.key()),
+            16 => Kind::Neigh(self.node(), *self.rng.pick(&[Dir::Out, Dir::In])),
+            17 => Kind::Degree(self.node()),
+            18 => {
+                if self.rng.chance(3, 4) { Kind::TripleQ(self.pattern()) } else { Kind::TripleApi(self.pattern()) }
+            }
+            _ => Kind::DbCounts,
+        }
+    }
+
+    fn create_node(&mut self, s: i64) -> Op {
+        let gql = self.rng.chance(1, 2);
+        let ls = self.labels();
+        let ps = self.props(!gql);
+        Op::CreateNode(s, ls, ps, gql)
+    }
+
+    /// a random mutation by session `s`; `lpg_weight`/`rdf_weight` steer the mix
+    fn mutation(&mut self, s: i64) -> Op {
+        loop {
+            let r = self.rng.below(100);
+            let op = match r {
+                0..=21 => {
+                    if self.sh.nn >= MAXNODES {
+                        continue;
+                    }
+                    self.create_node(s)
+                }
+                22..=29 => Op::DeleteNode(s, self.sel(), self.node(), self.rng.chance(1, 3)),
+                30..=37 => {
+                    if self.sh.ne >= MAXEDGES {
+                        continue;
+                    }
+                    Op::CreateEdge(s, self.node(), self.node(), self.ty())
+                }
+                38..=43 => {
+                    if self.sh.ne >= MAXEDGES {
+                        continue;
+                    }
+                    Op::CreateEdgeQ(s, self.sel(), self.sel(), self.node(), self.node(), self.ty())
+                }
+                44..=46 => Op::DeleteEdge(self.edge()),
+                47..=58 => Op::SetProp(s, self.sel(), self.node(), self.key(), self.value()),
+                59..=62 => Op::RemoveProp(s, self.sel(), self.node(), self.key()),
+                63..=69 => Op::AddLabel(s, self.sel(), self.node(), self.label()),
+                70..=74 => Op::RemoveLabel(s, self.sel(), self.node(), self.label()),
+                75..=84 => Op::InsertTriple(s, self.triple()),
+                85..=90 => Op::DeleteTriple(s, self.triple()),
+                91..=92 => Op::DbDeleteNode(self.node()),
+                93..=94 => Op::DbSetProp(self.node(), self.key(), self.value()),
+                95..=96 => Op::DbRemoveProp(self.node(), self.key()),
+                97..=98 => Op::DbAddLabel(self.node(), self.label()),
+                _ => Op::DbRemoveLabel(self.node(), self.label()),
+            };
+            return op;
+        }
+    }
+
+    /// a small committed starting graph, written outside any transaction by the observer session
+    /// (epoch 0, TxId::SYSTEM — exactly what `GrafeoDB::create_node` does)
+    fn fixture(&mut self, nodes: i64, edges: i64, triples: i64) {
+        for _ in 0..nodes {
+            let ls = self.labels();
+            let ps = self.props(false);
+            let gql = self.rng.chance(1, 2);
+            self.push(Op::CreateNode(OBSERVER, ls, ps, gql));
+        }
+        for _ in 0..edges {
+            if self.sh.nn > 0 {
+                let (a, b, t) = (self.rng.below(self.sh.nn as u64) as i64, self.rng.below(self.sh.nn as u64) as i64, self.ty());
+                self.push(Op::CreateEdge(OBSERVER, a, b, t));
+            }
+        }
+        for _ in 0..triples {
+            let t = self.triple();
+            self.push(Op::InsertTriple(OBSERVER, t));
+        }
+    }
+
+    /// full observable state through every access path, read by the observer session
+    fn dump(&mut self) {
+        let mut kinds: Vec<Kind> = self.last_dump_kinds.clone();
+        let base = kinds.len();
+        let mut fresh: Vec<Kind> = vec![];
+        for n in 0..self.sh.nn {
+            fresh.push(Kind::GetNode(n));
+            fresh.push(Kind::Neigh(n, Dir::Out));
+            fresh.push(Kind::Neigh(n, Dir::In));
+            fresh.push(Kind::Degree(n));
+            for k in 0..NKEYS {
+                fresh.push(Kind::StoreProp(n, k));
+            }
+        }
+        for e in 0..self.sh.ne {
+            fresh.push(Kind::GetEdge(e));
+        }
+        for l in 0..NLABELS {
+            fresh.push(Kind::LabelScan(l));
+            fresh.push(Kind::StoreLabel(l));
+            for k in 0..NKEYS {
+                fresh.push(Kind::ProjProp(l, k));
+            }
+        }
+        fresh.push(Kind::AllScan);
+        fresh.push(Kind::CountAll);
+        fresh.push(Kind::Expand(Sel::Any, Dir::Out, None));
+        for l in 0..NLABELS {
+            fresh.push(Kind::Expand(Sel::Label(l), Dir::Out, None));
+        }
+        for t in 0..NTYPES {
+            fresh.push(Kind::Expand(Sel::Any, Dir::Out, Some(t)));
+        }
+        fresh.push(Kind::TripleQ((None, None, None)));
+        fresh.push(Kind::DbCounts);
+        for k in fresh {
+            if !kinds.contains(&k) {
+                kinds.push(k);
+            }
+        }
+        let start = self.ops.len();
+        for k in &kinds {
+            self.push(Op::Read(OBSERVER, k.clone()));
+        }
+        self.dumps.push((start, kinds.len(), base));
+        self.last_dump_kinds = kinds;
+    }
+}
+
+// ---------------------------------------------------------------------------------- generators
+
+/// random interleaving of everything
+fn gen_random(g: &mut Gen, len: usize) {
+    let (n, e, t) = (g.rng.below(4) as i64, g.rng.below(3) as i64, g.rng.below(3) as i64);
+    g.fixture(n, e, t);
+    for _ in 0..len {
+        let s = g.sess();
+        let in_tx = g.sh.in_tx[s as usize];
+        let r = g.rng.below(100);
+        let op = if r < 10 {
+            if in_tx && g.rng.chance(9, 10) { Op::Read(s, g.read_kind()) } else { Op::Begin(s) }
+        } else if r < 17 {
+            if in_tx || g.rng.chance(1, 10) { Op::Commit(s) } else { Op::Begin(s) }
+        } else if r < 23 {
+            if in_tx || g.rng.chance(1, 10) { Op::Rollback(s) } else { Op::Begin(s) }
+        } else if r < 24 {
+            Op::DropSession(s)
+        } else if r < 60 {
+            g.mutation(s)
+        } else {
+            Op::Read(s, g.read_kind())
+        };
+        g.push(op);
+    }
+}
+
+/// a writer's transaction is open while another session reads (dirty / fuzzy / phantom shapes)
+fn gen_overlap(g: &mut Gen) {
+    let (n, e, t) = (1 + g.rng.below(3) as i64, g.rng.below(3) as i64, g.rng.below(2) as i64);
+    g.fixture(n, e, t);
+    let w = 0;
+    let r = 1;
+    // optionally move to a later epoch first
+    for _ in 0..g.rng.below(3) {
+        g.push(Op::Begin(2 % g.sh.nsess));
+        if g.rng.chance(1, 2) {
+            let op = g.mutation(2 % g.sh.nsess);
+            g.push(op);
+        }
+        g.push(Op::Commit(2 % g.sh.nsess));
+    }
+    let reader_tx = g.rng.below(3); // 0: no tx, 1: begins before the writer, 2: begins after the writer
+    if reader_tx == 1 {
+        g.push(Op::Begin(r));
+    }
+    g.push(Op::Begin(w));
+    if reader_tx == 2 {
+        g.push(Op::Begin(r));
+    }
+    let k = 1 + g.rng.below(4);
+    for _ in 0..k {
+        let op = g.mutation(w);
+        g.push(op);
+        for _ in 0..g.rng.below(3) {
+            let kind = g.read_kind();
+            g.push(Op::Read(r, kind));
+        }
+    }
+    let end = g.rng.below(3);
+    g.push(match end {
+        0 => Op::Commit(w),
+        1 => Op::Rollback(w),
+        _ => Op::DropSession(w),
+    });
+    for _ in 0..(1 + g.rng.below(4)) {
+        let kind = g.read_kind();
+        g.push(Op::Read(r, kind));
+    }
+    if reader_tx != 0 {
+        let c = g.rng.chance(1, 2);
+        g.push(if c { Op::Commit(r) } else { Op::Rollback(r) });
+        let kind = g.read_kind();
+        g.push(Op::Read(r, kind));
+    }
+}
+
+/// several commits, then writes outside transactions and reads through every path
+fn gen_epoch(g: &mut Gen) {
+    let (n, e) = (g.rng.below(3) as i64, g.rng.below(2) as i64);
+    g.fixture(n, e, 0);
+    for _ in 0..(1 + g.rng.below(3)) {
+        let s = g.sess();
+        g.push(Op::Begin(s));
+        for _ in 0..g.rng.below(3) {
+            let op = g.mutation(s);
+            g.push(op);
+        }
+        g.push(Op::Commit(s));
+    }
+    for _ in 0..(2 + g.rng.below(5)) {
+        let s = g.sess();
+        let op = g.mutation(s);
+        g.push(op);
+        for _ in 0..(1 + g.rng.below(3)) {
+            let s2 = g.sess();
+            let kind = g.read_kind();
+            g.push(Op::Read(s2, kind));
+        }
+    }
+}
+
+/// histories built to stay outside every finding class: readers whose snapshot precedes the
+/// writer's begin, writers that only create unlabelled nodes / triples, single-session transactions
+fn gen_clean(g: &mut Gen) {
+    let variant = g.rng.below(3);
+    // committed starting graph at epoch 0
+    let (n, e, t) = (1 + g.rng.below(3) as i64, g.rng.below(3) as i64, g.rng.below(3) as i64);
+    g.fixture(n, e, t);
+    match variant {
+        0 => {
+            // reader begins, an empty transaction commits (epoch + 1), writer begins later and creates
+            g.push(Op::Begin(1));
+            g.push(Op::Begin(2 % g.sh.nsess.max(3)));
+            g.push(Op::Commit(2 % g.sh.nsess.max(3)));
+            g.push(Op::Begin(0));
+            for _ in 0..(1 + g.rng.below(3)) {
+                let op = if g.rng.chance(1, 2) { g.create_node(0) } else { Op::InsertTriple(0, g.triple()) };
+                g.push(op);
+                let kind = match g.rng.below(6) {
+                    0 => Kind::LabelScan(g.label()),
+                    1 => Kind::AllScan,
+                    2 => Kind::GetNode(g.node()),
+                    3 => Kind::TripleQ(g.pattern()),
+                    4 => Kind::CountLabel(g.label()),
+                    _ => Kind::ProjProp(g.label(), g.key()),
+                };
+                g.push(Op::Read(1, kind));
+            }
+            let c = g.rng.chance(1, 2);
+            g.push(if c { Op::Commit(0) } else { Op::Rollback(0) });
+            let kind = Kind::LabelScan(g.label());
+            g.push(Op::Read(1, kind));
+            g.push(Op::Commit(1));
+        }
+        1 => {
+            // triples only: writer buffers, others read the committed set
+            g.push(Op::Begin(0));
+            for _ in 0..(1 + g.rng.below(4)) {
+                let op = if g.rng.chance(2, 3) { Op::InsertTriple(0, g.triple()) } else { Op::DeleteTriple(0, g.triple()) };
+                g.push(op);
+                let p = g.pattern();
+                g.push(Op::Read(1, Kind::TripleQ(p)));
+            }
+            let c = g.rng.chance(1, 2);
+            g.push(if c { Op::Commit(0) } else { Op::Rollback(0) });
+            let p = g.pattern();
+            g.push(Op::Read(1, Kind::TripleQ(p)));
+            g.push(Op::Read(0, Kind::TripleQ((None, None, None))));
+        }
+        _ => {
+            // one session at a time: own writes inside the transaction, everybody afterwards
+            g.push(Op::Begin(0));
+            for _ in 0..(1 + g.rng.below(3)) {
+                let op = g.create_node(0);
+                g.push(op);
+                let kind = match g.rng.below(3) {
+                    0 => Kind::LabelScan(g.label()),
+                    1 => Kind::GetNode(g.node()),
+                    _ => Kind::AllScan,
+                };
+                g.push(Op::Read(0, kind));
+            }
+            g.push(Op::Commit(0));
+            for _ in 0..3 {
+                let kind = match g.rng.below(3) {
+                    0 => Kind::LabelScan(g.label()),
+                    1 => Kind::GetNode(g.node()),
+                    _ => Kind::AllScan,
+                };
+                g.push(Op::Read(1, kind));
+            }
+        }
+    }
+}
+
+/// C02: dump, one transaction with mixed mutations (other sessions only read), end, dump
+fn gen_atomic(g: &mut Gen, ntx: usize) {
+    let (n, e, t) = (1 + g.rng.below(3) as i64, g.rng.below(3) as i64, g.rng.below(3) as i64);
+    g.fixture(n, e, t);
+    // starting graphs are themselves generated histories: sometimes a few committed transactions first
+    for _ in 0..g.rng.below(3) {
+        let s = g.sess();
+        g.push(Op::Begin(s));
+        for _ in 0..(1 + g.rng.below(2)) {
+            let op = g.mutation(s);
+            g.push(op);
+        }
+        g.push(Op::Commit(s));
+    }
+    for _ in 0..ntx {
+        g.dump();
+        let s = g.sess();
+        g.push(Op::Begin(s));
+        let k = 2 + g.rng.below(4);
+        let clean = g.rng.chance(1, 4);
+        for _ in 0..k {
+            let op = if clean {
+                // creations without labels / properties and triple operations only
+                match g.rng.below(3) {
+                    0 => Op::CreateNode(s, vec![], vec![], g.rng.chance(1, 2)),
+                    1 => Op::InsertTriple(s, g.triple()),
+                    _ => Op::DeleteTriple(s, g.triple()),
+                }
+            } else {
+                loop {
+                    let op = g.mutation(s);
+                    // database-level calls are not part of the session's transaction
+                    if op.session().is_some() {
+                        break op;
+                    }
+                }
+            };
+            g.push(op);
+            if g.rng.chance(1, 3) {
+                let other = (s + 1) % g.sh.nsess;
+                if !g.sh.in_tx[other as usize] {
+                    let kind = g.read_kind();
+                    g.push(Op::Read(other, kind));
+                }
+            }
+        }
+        let end = g.rng.below(10);
+        g.push(match end {
+            0..=3 => Op::Commit(s),
+            4..=8 => Op::Rollback(s),
+            _ => Op::DropSession(s),
+        });
+        g.dump();
+    }
+}
+
+// -------------------------------------------------------------------------------------- corpus
+
+fn corpus(prop: &str) -> Vec<(&'static str, Vec<Op>, bool)> {
+    use Kind::*;
+    use Op::*;
+    let mut v: Vec<(&'static str, Vec<Op>, bool)> = vec![];
+    if prop == "c01" {
+        // K1 dirty read: B sees A's uncommitted insert (probe a)
+        v.push(("corpus:K1-dirty", vec![Begin(0), CreateNode(0, vec![0], vec![(0, Some(1))], true), Read(1, LabelScan(0)), Read(1, GetNode(0)), Rollback(0), Read(1, LabelScan(0))], false));
+        // K1 phantom: reader's transaction began before the writer committed
+        v.push(("corpus:K1-phantom", vec![Begin(1), Read(1, LabelScan(0)), Begin(0), CreateNode(0, vec![0], vec![], false), Commit(0), Read(1, LabelScan(0)), Commit(1)], false));
+        // K2 property written by an open transaction, and left after rollback (probe c)
+        v.push(("corpus:K2-setprop", vec![CreateNode(OBSERVER, vec![0], vec![(0, Some(1))], false), Begin(0), SetProp(0, Sel::Label(0), 0, 0, Some(2)), Read(1, GetNode(0)), Rollback(0), Read(1, GetProp(0, 0))], false));
+        // K3 delete observed before commit and after rollback
+        v.push(("corpus:K3-delete", vec![CreateNode(OBSERVER, vec![0], vec![], false), Begin(0), DeleteNode(0, Sel::Label(0), 0, false), Read(1, GetNode(0)), Rollback(0), Read(1, LabelScan(0))], false));
+        // K4 store epoch: after one commit, writes are stamped 1 and the unlabelled paths miss them (probe b)
+        v.push(("corpus:K4-epoch", vec![Begin(0), Commit(0), CreateNode(1, vec![0], vec![(0, Some(2))], true), Read(1, LabelScan(0)), Read(1, AllScan), Read(1, CountAll), Read(1, ProjProp(0, 0)), Read(1, DbCounts), CreateNode(1, vec![0], vec![], false), CreateEdge(1, 0, 1, 0), Read(1, Expand(Sel::Label(0), Dir::Out, None)), Read(1, Expand(Sel::Label(0), Dir::Out, Some(0)))], false));
+        // K5 own pending triple operations are invisible to the transaction's SPARQL reads; find_with_pending anomalies
+        v.push(("corpus:K5-rdf", vec![InsertTriple(OBSERVER, (0, 0, 0)), Begin(0), InsertTriple(0, (1, 1, 1)), Read(0, TripleQ((None, None, None))), InsertTriple(0, (0, 0, 0)), Read(0, TripleApi((None, None, None))), DeleteTriple(0, (1, 1, 1)), Read(0, TripleApi((None, None, None))), Read(1, TripleQ((None, None, None))), Commit(0), Read(1, TripleQ((None, None, None)))], false));
+        // K6 neighbours ignore visibility
+        v.push(("corpus:K6-neigh", vec![CreateNode(OBSERVER, vec![], vec![], false), CreateNode(OBSERVER, vec![], vec![], false), Begin(0), CreateEdge(0, 0, 1, 0), Read(1, Neigh(0, Dir::Out)), Read(1, Degree(0)), Rollback(0), Read(1, Neigh(0, Dir::Out)), Read(1, GetEdge(0))], false));
+        // outside every class: reader's snapshot precedes the writer's begin
+        v.push(("corpus:clean-later-starter", vec![CreateNode(OBSERVER, vec![0], vec![], false), Begin(1), Begin(2), Commit(2), Begin(0), CreateNode(0, vec![0], vec![(0, Some(3))], true), Read(1, LabelScan(0)), Read(1, GetNode(1)), Read(1, AllScan), Commit(0), Read(1, LabelScan(0)), Commit(1), Read(1, LabelScan(0))], false));
+        // error paths of the transaction state machine
+        v.push(("corpus:state-machine", vec![Commit(0), Rollback(0), Begin(0), Begin(0), Commit(0), Commit(0), Begin(0), Rollback(0), Rollback(0)], false));
+    } else {
+        // K1: rollback leaves SET / REMOVE / label changes / DELETE
+        v.push(("corpus:K1-rollback-inplace", vec![CreateNode(OBSERVER, vec![0], vec![(0, Some(1))], false), CreateNode(OBSERVER, vec![1], vec![], false)], true));
+        v.push(("corpus:K2-rollback-creation", vec![CreateNode(OBSERVER, vec![0], vec![], false)], true));
+        v.push(("corpus:K4-drop", vec![CreateNode(OBSERVER, vec![0], vec![], false)], true));
+        v.push(("corpus:K5-commit-epoch", vec![], true));
+        v.push(("corpus:clean-rollback", vec![CreateNode(OBSERVER, vec![0], vec![(1, Some(2))], false), InsertTriple(OBSERVER, (0, 0, 0))], true));
+        v.push(("corpus:clean-commit", vec![CreateNode(OBSERVER, vec![0], vec![(1, Some(2))], false), InsertTriple(OBSERVER, (0, 0, 0))], true));
+    }
+    v
+}
+
+/// the transaction of a C02 corpus entry (between two dumps)
+fn corpus_tx(name: &str) -> Vec<Op> {
+    use Op::*;
+    match name {
+        "corpus:K1-rollback-inplace" => vec![Begin(0), SetProp(0, Sel::Label(0), 0, 0, Some(2)), AddLabel(0, Sel::Label(0), 0, 2), RemoveLabel(0, Sel::Label(1), 1, 1), DeleteNode(0, Sel::Label(0), 0, false), Rollback(0)],
+        "corpus:K2-rollback-creation" => vec![Begin(0), CreateNode(0, vec![1], vec![(0, Some(3))], true), CreateEdge(0, 0, 1, 0), Rollback(0)],
+        "corpus:K4-drop" => vec![Begin(0), CreateNode(0, vec![1], vec![], false), InsertTriple(0, (0, 0, 0)), DropSession(0)],
+        "corpus:K5-commit-epoch" => vec![Begin(1), Commit(1), Begin(0), CreateNode(0, vec![0], vec![(0, Some(1))], true), InsertTriple(0, (0, 0, 0)), Commit(0)],
+        "corpus:clean-rollback" => vec![Begin(0), CreateNode(0, vec![], vec![], false), InsertTriple(0, (1, 1, 1)), DeleteTriple(0, (0, 0, 0)), Read(1, Kind::AllScan), Rollback(0)],
+        "corpus:clean-commit" => vec![Begin(0), CreateNode(0, vec![], vec![], false), InsertTriple(0, (1, 1, 1)), DeleteTriple(0, (0, 0, 0)), Read(1, Kind::TripleQ((None, None, None))), Commit(0)],
+        _ => vec![],
+    }
+}
+
+// ---------------------------------------------------------------------------------------- main
+
+fn nontrivial_c01(ops: &[Op]) -> bool {
+    // a read by one session strictly inside another session's open transaction
+    let mut open: Vec<i64> = vec![];
+    let mut sessions = std::collections::BTreeSet::new();
+    let mut hit = false;
+    for op in ops {
+        if let Some(s) = op.session() {
+            if s != OBSERVER {
+                sessions.insert(s);
+            }
+        }
+        match op {
+            Op::Begin(s) => {
+                if !open.contains(s) {
+                    open.push(*s)
+                }
+            }
+            Op::Commit(s) | Op::Rollback(s) | Op::DropSession(s) => open.retain(|x| x != s),
+            Op::Read(s, _) => {
+                if open.iter().any(|x| x != s) {
+                    hit = true
+                }
+            }
+            _ => {}
+        }
+    }
+    hit && sessions.len() >= 2
+}
+
+fn nontrivial_c02(ops: &[Op], dumps: &[(usize, usize, usize)]) -> bool {
+    // a transaction with >= 2 mutations of different kinds, ended by commit or rollback, observed
+    // by another session (the observer's dump after its end)
+    let mut i = 0;
+    while i < ops.len() {
+        if let Op::Begin(s) = &ops[i] {
+            let mut kinds = std::collections::BTreeSet::new();
+            let mut j = i + 1;
+            while j < ops.len() {
+                match &ops[j] {
+                    Op::Commit(x) | Op::Rollback(x) if x == s => break,
+                    Op::DropSession(x) if x == s => break,
+                    o if o.session() == Some(*s) && o.is_mutation() => {
+                        kinds.insert(o.mkind());
+                    }
+                    _ => {}
+                }
+                j += 1;
+            }
+            if j < ops.len() && kinds.len() >= 2 && dumps.iter().any(|d| d.0 > j) {
+                return true;
+            }
+        }
+        i += 1;
+    }
+    false
+}
+
+fn emit(out: &mut Out, name: &str, g: Gen, prop: &str, show: bool) {
+    let ops_s = coq::list(g.ops.iter().map(|o| o.coq()));
+    let outs_s = coq::list(g.outs.iter().map(|o| o.coq()));
+    let mut tags = vec![format!("stream:{}", name.split(':').next().unwrap_or(name)), format!("len:{}", (g.ops.len() / 10) * 10)];
+    let mut kinds = std::collections::BTreeSet::new();
+    for o in &g.ops {
+        match o {
+            Op::Read(_, k) => {
+                let n = format!("{:?}", k);
+                kinds.insert(format!("read:{}", n.split('(').next().unwrap_or(&n)));
+            }
+            Op::Begin(_) | Op::Commit(_) | Op::Rollback(_) | Op::DropSession(_) => {
+                let n = format!("{:?}", o);
+                kinds.insert(format!("tx:{}", n.split('(').next().unwrap_or(&n)));
+            }
+            m => {
+                kinds.insert(format!("mut:{}", m.mkind()));
+            }
+        }
+    }
+    tags.extend(kinds);
+    let human: Vec<String> = g.ops.iter().map(|o| format!("{:?}", o)).collect();
+    let dumps_s = coq::list(g.dumps.iter().map(|(a, b, c)| format!("({}, {}, {})", z(*a as i64), z(*b as i64), z(*c as i64))));
+    let nt = if prop == "c01" { nontrivial_c01(&g.ops) } else { nontrivial_c02(&g.ops, &g.dumps) };
+    if show {
+        eprintln!("--- {} ({} ops, nt={})", name, g.ops.len(), nt);
+        for (o, r) in g.ops.iter().zip(g.outs.iter()) {
+            eprintln!("    {:?}  =>  {:?}", o, r);
+        }
+    }
+    let c = Case {
+        kind: name.to_string(),
+        input: human.join("; "),
+        coq: Some(format!("chk_hist {} {}", ops_s, outs_s)),
+        show: Some(format!("show_hist {} {}", ops_s, outs_s)),
+        oracle: Oracle::Na,
+        msg: format!("dumps={}{}", dumps_s, if g.errs.is_empty() { String::new() } else { format!(" errors={:?}", g.errs) }),
+        kcoq: None,
+        kid: None,
+        nontrivial: nt,
+        imp: g.outs.iter().map(|o| format!("{:?}", o)).collect::<Vec<_>>().join("; "),
+        tags,
+    };
+    out.emit(&c);
+}
+
+fn main() {
+    quiet_panics();
+    let a = parse_args();
+    let mut prop = "c01".to_string();
+    let mut show = false;
+    let mut it = a.rest.iter();
+    while let Some(x) = it.next() {
+        match x.as_str() {
+            "--prop" => prop = it.next().cloned().unwrap_or_default(),
+            "--show" => show = true,
+            _ => {}
+        }
+    }
+    let mut out = Out::create(a.out.as_deref());
+    let mut rng = Rng::new(a.seed ^ if prop == "c01" { 0x0c01 } else { 0x0c02 });
+
+    // corpus first
+    for (name, pre, is_c02) in corpus(&prop) {
+        let mut r = rng.fork();
+        let mut g = Gen::new(&mut r, 3);
+        for o in pre {
+            g.push(o);
+        }
+        if is_c02 {
+            g.dump();
+            for o in corpus_tx(name) {
+                g.push(o);
+            }
+            g.dump();
+        }
+        emit(&mut out, name, g, &prop, show);
+    }
+
+    for i in 0..a.cases {
+        let mut r = rng.fork();
+        let nsess = 2 + r.below(3) as i64;
+        let mut g = Gen::new(&mut r, nsess.max(3));
+        let name;
+        if prop == "c01" {
+            match i % 10 {
+                0 | 1 | 2 => {
+                    name = "overlap";
+                    gen_overlap(&mut g);
+                }
+                3 | 4 => {
+                    name = "epoch";
+                    gen_epoch(&mut g);
+                }
+                5 | 6 => {
+                    name = "clean";
+                    gen_clean(&mut g);
+                }
+                _ => {
+                    name = "random";
+                    let len = 4 + g.rng.below(if a.tier == "quick" { 30 } else { 36 }) as usize;
+                    gen_random(&mut g, len);
+                }
+            }
+        } else {
+            name = "atomic";
+            let ntx = 1 + g.rng.below(2) as usize;
+            gen_atomic(&mut g, ntx);
+        }
+        emit(&mut out, name, g, &prop, show);
+    }
+    out.finish();
 }
